@@ -33,6 +33,14 @@ def pyListGet (l : List Int) (i : Int) : Int :=
   if i < 0 then l.getD (l.length - i.natAbs) 0 else l.getD i.toNat 0
 def pyListTake (l : List Int) (i : Int) : List Int :=
   if i < 0 then l.take (l.length - i.natAbs) else l.take i.toNat
+/-- the same for lists of booleans / floats (per-neighbour masks, weights and values; an index out of range reads False / 0) -/
+def pyListGetB (l : List Bool) (i : Int) : Bool :=
+  if i < 0 then l.getD (l.length - i.natAbs) false else l.getD i.toNat false
+def pyListGetQ (l : List Rat) (i : Int) : Rat :=
+  if i < 0 then l.getD (l.length - i.natAbs) 0 else l.getD i.toNat 0
+/-- a boolean used as a number (`mask * w`, `count += mask`) -/
+def pyB2I (b : Bool) : Int := if b then 1 else 0
+def pyB2Q (b : Bool) : Rat := if b then 1 else 0
 
 /-! ### floats that may be NaN (`none`); ±inf is folded into NaN, as in `Model/C06.lean` (every use feeds an
 "outside [0, 1]" or `isnan` test that treats both alike) -/
